@@ -1,2 +1,272 @@
-(* C05 (in progress) *)
-From Verif Require Import Lib.Base Lib.Dyadic Lib.Utf8 Model.Value Proofs.Value.
+(* C05 — Number/string conversion and comparison typing follow the AWK value model.
+   Only statements closed by [exact] of a lemma proved in Proofs/, non-vacuity examples,
+   the full statements the pinned tree violates with their refutations, and
+   Print Assumptions.  Model: Model/Value.v (interp/value.go, the twelve comparison
+   opcodes of interp/vm.go, strconv.ParseFloat's syntax and rounding contract). *)
+From Verif Require Import Lib.Base Lib.Dyadic Lib.Utf8 Model.Value
+  Proofs.ValueCmp Proofs.ValueStr Proofs.ValueScan Proofs.ValueGrammar.
+
+(* ================================================================== *)
+(* 1. number -> string                                                 *)
+(* ================================================================== *)
+
+(* v.n == float64(int64(v.n)) (amd64 conversion) holds exactly for the integral doubles in
+   [-2^63, 2^63) *)
+Theorem C05_int_path_exact : forall m e,
+  int_path (FFin m e) = true <-> is_integral m e = true /\ in_i64 (ftrunc m e) = true.
+Proof. exact int_path_iff. Qed.
+Print Assumptions C05_int_path_exact.
+
+(* value.str on every finite double: the exact integer when integral and within int64,
+   the CONVFMT/OFMT format otherwise *)
+Theorem C05_int_to_string_exact : forall fmt m e,
+  num_to_str fmt (FFin m e) =
+    if is_integral m e && in_i64 (ftrunc m e) then Ok (format_int (ftrunc m e))
+    else format_float fmt m e.
+Proof. exact num_to_str_finite. Qed.
+Print Assumptions C05_int_to_string_exact.
+
+(* the integer text denotes exactly that integer ... *)
+Theorem C05_format_int_value : forall z, int_text_value (format_int z) = z.
+Proof. exact format_int_exact. Qed.
+Print Assumptions C05_format_int_value.
+
+(* ... and is the canonical numeral: optional '-', digits only, no leading zero *)
+Theorem C05_format_int_canonical : forall z,
+  exists sg d t, format_int z = sg ++ (48 + d) :: digit_chars t /\
+    (sg = [] \/ sg = [45] /\ z < 0) /\ 0 <= d <= 9 /\ Forall (fun x => 0 <= x <= 9) t /\
+    (d = 0 -> t = [] /\ z = 0).
+Proof. exact format_int_canonical. Qed.
+Print Assumptions C05_format_int_canonical.
+
+Example C05_ex_int_paths :
+  (* 2^53+2 is on the integer path, 2^63 is not (int64 conversion gives -2^63), -2^63 is, 0.5 is not *)
+  int_path (FFin 9007199254740994 0) = true /\ int_path (FFin 1 63) = false /\
+  int_path (FFin (-1) 63) = true /\ int_path (FFin 1 (-1)) = false /\
+  num_to_str str_fmt6g (FFin (-1) 63) = Ok [45;57;50;50;51;51;55;50;48;51;54;56;53;52;55;55;53;56;48;56] /\
+  num_to_str str_fmt6g (FFin 1 63) = Ok [57;46;50;50;51;51;55;101;43;49;56] /\   (* 9.22337e+18 *)
+  num_to_str str_fmt6g (FFin 1 (-1)) = Ok [48;46;53].
+Proof. vm_compute. repeat split. Qed.
+
+(* ================================================================== *)
+(* 2. string -> number: the prefix scanner                             *)
+(* ================================================================== *)
+
+(* parseFloatPrefix skips ASCII blanks, then consumes a prefix that is in the AWK numeric
+   grammar and at least as long as every grammatical prefix (PSNum); reports zero only when
+   every grammatical prefix spells zero ("0" before an x that no hex digit follows) (PSZero);
+   reports nan/inf exactly on [sign] n a n / i n f (any case); and never indexes out of range. *)
+Theorem C05_prefix_is_longest : forall s,
+  let ws := fst (span ascii_space s) in
+  let t := snd (span ascii_space s) in
+  s = ws ++ t /\ forallb ascii_space ws = true /\ stops ascii_space t /\
+  scan_verdict_ok t (scan_prefix s) (zlen ws).
+Proof. exact prefix_is_longest. Qed.
+Print Assumptions C05_prefix_is_longest.
+
+Theorem C05_prefix_scan_no_panic : forall s, scan_prefix s <> PSPanic.
+Proof. exact scan_prefix_no_panic. Qed.
+Print Assumptions C05_prefix_scan_no_panic.
+
+Example C05_ex_scan :
+  (* "  -12.5e2xyz" -> "-12.5e2" from offset 2; "0x1p-2z" -> "0x1p-2"; "0x" -> "0"; "0xg" -> zero;
+     "+infinity" -> +inf; "1e+" -> "1" *)
+  scan_prefix [32;32;45;49;50;46;53;101;50;120;121;122] = PSNum 2 [45;49;50;46;53;101;50] false /\
+  scan_prefix [48;120;49;112;45;50;122] = PSNum 0 [48;120;49;112;45;50] false /\
+  scan_prefix [48;120;49;65] = PSNum 0 [48;120;49;65] true /\
+  scan_prefix [48;120] = PSNum 0 [48] false /\
+  scan_prefix [48;120;103] = PSZero /\
+  scan_prefix [43;105;110;102;105;110;105;116;121] = PSInf false /\
+  scan_prefix [49;101;43] = PSNum 0 [49] false /\
+  parse_float_prefix [32;32;45;49;50;46;53;101;50;120;121;122] = Ok (FFin (-5497558138880000) (-42)).
+Proof. vm_compute. repeat split. Qed.
+
+(* ================================================================== *)
+(* 3. coherence of the two string -> number routines                   *)
+(* ================================================================== *)
+
+(* FULL STATEMENT (property text: "the number a numeric-looking input string stands for is the
+   same in comparisons, truth tests and arithmetic"): whenever parseFloat (comparisons, truth
+   tests) accepts s as the number x, parseFloatPrefix (arithmetic) reads the same x. *)
+Definition C05_coherence_full_statement : Prop :=
+  forall s x, parse_float s = PFOk x -> parse_float_prefix s = Ok x.
+
+(* FALSE on the pinned tree (F-C05-1): NBSP "12" is 12 for parseFloat (strings.TrimSpace trims
+   Unicode blanks) and 0 for parseFloatPrefix (skips ASCII blanks only). *)
+Theorem C05_coherence_refuted : ~ C05_coherence_full_statement.
+Proof.
+  intro H. specialize (H [194; 160; 49; 50] (FFin 6755399441055744 (-49))).
+  assert (E : parse_float [194; 160; 49; 50] = PFOk (FFin 6755399441055744 (-49))) by (vm_compute; reflexivity).
+  specialize (H E). vm_compute in H. discriminate.
+Qed.
+Print Assumptions C05_coherence_refuted.
+
+(* trailing position too: "12" NBSP; and U+3000 *)
+Theorem C05_coherence_refuted_more :
+  (exists x, parse_float [226; 128; 131; 49; 50] = PFOk x /\ parse_float_prefix [226; 128; 131; 49; 50] <> Ok x) /\
+  (exists x, parse_float [194; 160; 48; 120; 49; 65] = PFOk x /\ parse_float_prefix [194; 160; 48; 120; 49; 65] <> Ok x).
+Proof.
+  split; eexists; (split; [vm_compute; reflexivity|vm_compute; discriminate]).
+Qed.
+
+(* PARTIAL: holds whenever Unicode trimming and ASCII trimming of s coincide, i.e. for every
+   string without a non-ASCII Unicode blank at an edge of its ASCII-trimmed text.  All
+   strings, all values (decimal, hex, inf, nan; rounding included, since both routines hand
+   the same text to strconv). *)
+Theorem C05_coherence_partial : forall s x,
+  trim_space s = ascii_trim s -> parse_float s = PFOk x -> parse_float_prefix s = Ok x.
+Proof. exact coherence_partial. Qed.
+Print Assumptions C05_coherence_partial.
+
+Example C05_ex_coherence_hyp :
+  (* " 0x1A \n": hypotheses hold, both read 26 *)
+  trim_space [32;48;120;49;65;32;10] = ascii_trim [32;48;120;49;65;32;10] /\
+  parse_float [32;48;120;49;65;32;10] = PFOk (FFin 7318349394477056 (-48)) /\
+  parse_float_prefix [32;48;120;49;65;32;10] = Ok (FFin 7318349394477056 (-48)).
+Proof. vm_compute. repeat split. Qed.
+
+(* FULL STATEMENT (property text: input-derived text "that looks entirely like a number"
+   compares numerically): a text in the AWK numeric grammar is accepted by parseFloat. *)
+Definition C05_numeric_text_accepted_full_statement : Prop :=
+  forall s, awk_numeral (ascii_trim s) -> exists x, parse_float s = PFOk x.
+
+(* FALSE on the pinned tree (F-C05-2): "1e400" is in the grammar; strconv returns ErrRange, so
+   isTrueStr/boolean treat it as a string, while parseFloatPrefix (arithmetic) reads +inf. *)
+Theorem C05_numeric_text_accepted_refuted : ~ C05_numeric_text_accepted_full_statement.
+Proof.
+  intro H. destruct (H [49; 101; 52; 48; 48]) as [x Hx].
+  - left. exists [], [49], [101; 52; 48; 48]. split; [reflexivity|]. split; [left; reflexivity|]. split.
+    + exists [49], [], []. split; [reflexivity|]. split; [reflexivity|]. split; [reflexivity|].
+      split; [right; split; reflexivity|left; discriminate].
+    + right. exists 101, [], [52; 48; 48]. split; [reflexivity|]. split; [left; reflexivity|].
+      split; [left; reflexivity|]. split; [discriminate|reflexivity].
+  - vm_compute in Hx. discriminate.
+Qed.
+Print Assumptions C05_numeric_text_accepted_refuted.
+
+Example C05_ex_overflow_incoherent :
+  (* "1e400": a string for comparisons (range error), +inf for arithmetic; "-0x1p1024" likewise *)
+  parse_float [49;101;52;48;48] = PFErrRange (FInf false) /\
+  parse_float_prefix [49;101;52;48;48] = Ok (FInf false) /\
+  is_true_str (VNumStr [49;101;52;48;48]) = (fzero, true) /\
+  parse_float [45;48;120;49;112;49;48;50;52] = PFErrRange (FInf true) /\
+  parse_float_prefix [45;48;120;49;112;49;48;50;52] = Ok (FInf true).
+Proof. vm_compute. repeat split. Qed.
+
+(* ================================================================== *)
+(* 4. comparison typing                                                *)
+(* ================================================================== *)
+
+(* a value is a numeric operand iff it is unset, a number, or input text parseFloat accepts *)
+Theorem C05_numeric_operand : forall v,
+  (exists x, numeric_operand v = Some x) <->
+  (v = VNull \/ (exists n, v = VNum n) \/ (exists s f, v = VNumStr s /\ parse_float s = PFOk f)).
+Proof. exact numeric_operand_cases. Qed.
+Print Assumptions C05_numeric_operand.
+
+(* every comparison site compares numerically when both operands are numeric operands and
+   bytewise on the two string forms otherwise *)
+Theorem C05_compare_mode : forall cf op l r,
+  (forall x y, numeric_operand l = Some x -> numeric_operand r = Some y ->
+     jump_site op cf l r = Ok (num_cmp op x y)) /\
+  (numeric_operand l = None \/ numeric_operand r = None ->
+     jump_site op cf l r = do sl <- v_str cf l; do sr <- v_str cf r; Ok (str_cmp op sl sr)).
+Proof. exact compare_mode. Qed.
+Print Assumptions C05_compare_mode.
+
+(* the twelve sites of vm.go (six expression opcodes, six fused jumps), modelled separately,
+   all compute the one specification function *)
+Theorem C05_twelve_sites_agree : forall cf op l r,
+  expr_site op cf l r = rmap boolean (spec_cmp cf op l r) /\
+  jump_site op cf l r = spec_cmp cf op l r.
+Proof. exact twelve_sites_agree. Qed.
+Print Assumptions C05_twelve_sites_agree.
+
+(* all six operators are read off one three-way outcome *)
+Theorem C05_one_outcome : forall cf op l r o,
+  spec_order cf l r = Ok o ->
+  jump_site op cf l r = Ok (decide op o) /\ expr_site op cf l r = Ok (boolean (decide op o)).
+Proof. exact site_outcome. Qed.
+Print Assumptions C05_one_outcome.
+
+(* provenance decides the tag: constants and computed strings are strings, everything read from
+   outside is a numeric-string candidate *)
+Theorem C05_provenance_tags : forall p s,
+  prov_value p s = match p with PConst | PComputed => VStr s | _ => VNumStr s end.
+Proof. reflexivity. Qed.
+
+(* ================================================================== *)
+(* 5. mutual consistency of the six operators                          *)
+(* ================================================================== *)
+
+Theorem C05_ne_not_eq : forall cf l r o,
+  spec_order cf l r = Ok o ->
+  exists b, jump_site OEq cf l r = Ok b /\ jump_site ONe cf l r = Ok (negb b).
+Proof. exact ne_not_eq. Qed.
+Print Assumptions C05_ne_not_eq.
+
+Theorem C05_lt_gt_swap : forall cf l r o,
+  spec_order cf l r = Ok o ->
+  exists b, jump_site OLt cf l r = Ok b /\ jump_site OGt cf r l = Ok b.
+Proof. exact lt_gt_swap. Qed.
+Print Assumptions C05_lt_gt_swap.
+
+Theorem C05_trichotomy : forall cf l r o,
+  ~ nan_operand l -> ~ nan_operand r -> spec_order cf l r = Ok o ->
+  exists lt eq gt, jump_site OLt cf l r = Ok lt /\ jump_site OEq cf l r = Ok eq /\ jump_site OGt cf l r = Ok gt /\
+    ((lt = true /\ eq = false /\ gt = false) \/ (lt = false /\ eq = true /\ gt = false) \/
+     (lt = false /\ eq = false /\ gt = true)).
+Proof. exact trichotomy. Qed.
+Print Assumptions C05_trichotomy.
+
+Theorem C05_le_not_gt : forall cf l r o,
+  ~ nan_operand l -> ~ nan_operand r -> spec_order cf l r = Ok o ->
+  exists b, jump_site OGt cf l r = Ok b /\ jump_site OLe cf l r = Ok (negb b).
+Proof. exact le_not_gt. Qed.
+Print Assumptions C05_le_not_gt.
+
+Theorem C05_ge_not_lt : forall cf l r o,
+  ~ nan_operand l -> ~ nan_operand r -> spec_order cf l r = Ok o ->
+  exists b, jump_site OLt cf l r = Ok b /\ jump_site OGe cf l r = Ok (negb b).
+Proof. exact ge_not_lt. Qed.
+Print Assumptions C05_ge_not_lt.
+
+(* what the compiler relies on when it turns "if (a OP b)" into the fused jump of the inverse
+   operator: for non-NaN operands the inverse opcode is the negation ... *)
+Theorem C05_inverse_jump_partial : forall cf op l r o,
+  ~ nan_operand l -> ~ nan_operand r -> spec_order cf l r = Ok o ->
+  exists b, jump_site op cf l r = Ok b /\ jump_site (inv_op op) cf l r = Ok (negb b).
+Proof. exact inverse_jump_is_negation. Qed.
+Print Assumptions C05_inverse_jump_partial.
+
+(* ... and with a NaN operand it is not (outside this property's statement, which excludes NaN;
+   reported: "if ($1 < 1)" with $1 = "nan" takes the true branch while ($1 < 1) is 0) *)
+Theorem C05_inverse_jump_nan_refuted :
+  exists cf l r, jump_site OLt cf l r = Ok false /\ jump_site (inv_op OLt) cf l r = Ok false.
+Proof. exists str_fmt6g, (VNumStr [110; 97; 110]), (VNum fone). vm_compute. split; reflexivity. Qed.
+
+(* string order = bytewise lexicographic, a strict total order *)
+Theorem C05_string_order_lexicographic : forall a b, s_lt a b = true <-> lex_lt a b.
+Proof. exact s_lt_lex. Qed.
+Print Assumptions C05_string_order_lexicographic.
+
+Theorem C05_string_order_strict_total :
+  (forall a, s_lt a a = false) /\
+  (forall a b c, s_lt a b = true -> s_lt b c = true -> s_lt a c = true) /\
+  (forall a b, (s_lt a b = true /\ a <> b /\ s_lt b a = false) \/
+               (s_lt a b = false /\ a = b /\ s_lt b a = false) \/
+               (s_lt a b = false /\ a <> b /\ s_lt b a = true)).
+Proof. exact string_order_strict_total. Qed.
+Print Assumptions C05_string_order_strict_total.
+
+Example C05_ex_cmp_hyp :
+  (* the hypotheses of the consistency theorems are met: field " 10 " against field "9" is numeric
+     (10 > 9), constant "10" against 9 is a string comparison ("10" < "9") *)
+  spec_order str_fmt6g (VNumStr [32;49;48;32]) (VNumStr [57]) = Ok (Some Gt) /\
+  ~ nan_operand (VNumStr [32;49;48;32]) /\ ~ nan_operand (VNumStr [57]) /\
+  spec_order str_fmt6g (VStr [49;48]) (VNum (FFin 9 0)) = Ok (Some Lt) /\
+  site_Less str_fmt6g (VStr [49;48]) (VNum (FFin 9 0)) = Ok (VNum fone) /\
+  site_JumpGreater str_fmt6g (VNumStr [32;49;48;32]) (VNumStr [57]) = Ok true.
+Proof.
+  vm_compute. repeat split; try reflexivity; intro H; discriminate.
+Qed.
